@@ -70,3 +70,16 @@ proof fn lits_headers()
     reveal_strlit("x-ms-azure-host-claims"); reveal_strlit("x-ms-azure-host-date"); reveal_strlit("x-ms-azure-host-authorization");
     assert(CLAIMS_H().len() == 22); assert(DATE_H().len() == 20); assert(AUTH_H().len() == 29);
 }
+
+pub open spec fn bool_text(b: bool) -> Seq<char> { if b { "true"@ } else { "false"@ } }     // Display for bool
+#[verifier::external_body] pub broadcast proof fn axiom_fmt_socketaddr() ensures #[trigger] vstd::std_specs::fmt::fmt_req_all::<std::net::SocketAddr>() {}
+#[verifier::external_body] pub broadcast proof fn axiom_fmt_ipv4() ensures #[trigger] vstd::std_specs::fmt::fmt_req_all::<std::net::Ipv4Addr>() {}
+#[verifier::external_body]
+pub broadcast proof fn axiom_to_string_ipv4(t: &std::net::Ipv4Addr, s: String)
+    ensures #[trigger] vstd::string::to_string_from_display_ensures::<std::net::Ipv4Addr>(t, s) <==> s@ == ip_string(*t) {}
+pub uninterp spec fn vx_status_forbidden() -> http::StatusCode;    // StatusCode::FORBIDDEN
+pub assume_specification [std::time::Instant::now] () -> std::time::Instant;
+pub assume_specification<'a> [<http::Uri as PartialEq<&'a str>>::eq] (u: &http::Uri, s: &&str) -> (r: bool)
+    ensures r == uri_is_str(*u, s@);
+pub assume_specification [<http::Uri as Clone>::clone] (u: &http::Uri) -> (r: http::Uri)
+    ensures r == *u;
